@@ -386,6 +386,7 @@ def _station_class():
 # machine
 # ======================================================================
 class C17(Machine):
+    chunk = 8      # runs per forked process (see runner._child)
     pid = 'C17'
     rule = ("one run = a history of <=8 store operations (save, overwrite, "
             "convert, to_file/from_file, load) over <=4 paths in the three "
